@@ -334,7 +334,7 @@ pub fn build(sp: &SessP) -> Result<Session, String> {
     let config = sender::Config {
         fdt_duration: Duration::from_secs(3600),
         fdt_carousel_mode: car_mode(&sp.fcar).ok_or("bad-fcar")?,
-        fdt_start_id: 1,
+        fdt_start_id: sp.fid0,
         fdt_cenc: cenc_of(&sp.fcenc).ok_or("bad-fcenc")?,
         fdt_inband_sct: true,
         fdt_publish_mode: if sp.full { FDTPublishMode::FullFDT } else { FDTPublishMode::ObjectsBeingTransferred },
